@@ -1,0 +1,27 @@
+//go:build verif
+
+package align
+
+// Additional contracts used by the Nexus / Stockholm parser proofs (property C03).
+
+// Iterate calls `it` on (name, sequence) of the rows in order until it returns true; it writes nothing itself.
+// The effects of the function literal given as `it` are accounted for at the call site by the verifier
+// (every captured variable it assigns and every heap array it writes is havocked after the call).
+//@ func (*seqbag).Iterate
+//@   props C03
+//@   trusted higher-order: calls its argument on each row (calls of function values are not inlined by the generator); the loop itself only reads sb.seqs
+//@   requires sb != nil
+//@   modifies nothing
+
+// ReplaceMatchChars rewrites residues only: shape, names and the name index are untouched (proved, no panic)
+//@ func (*align).ReplaceMatchChars
+//@   props C03
+//@   requires wfa(a)
+//@   ensures wfa(a) && nrows(a) == old(nrows(a)) && a.length == old(a.length)
+//@   modifies mem(uint8)
+//@   loop 1
+//@     invariant 1 <= seq
+//@     decreases nrows(a) - seq
+//@   loop 2
+//@     invariant 0 <= site && 1 <= seq && seq < nrows(a)
+//@     decreases a.length - site
